@@ -248,10 +248,14 @@ class C10(HostProp):
         if rng.chance(0.12):
             paths[0] = "~/" + paths[0]
             ops.extend(tilde_setup(rng, paths[0][2:], unique))
-        elif len(paths) > 1 and rng.chance(0.15):
-            paths[1] = paths[0] + rng.choice([".tmp", ".bak", "~", ".new"])      # two targets whose names are related
+        elif len(paths) > 1 and rng.chance(0.2):
+            # two files whose names are related (an editor's or a tool's scratch / backup name next to the target); the sibling
+            # always exists beforehand
+            paths[1] = paths[0] + rng.choice([".tmp", ".tmp", ".tmp", ".bak", "~", ".new"])
+            ops.append({"op": "setup", "path": paths[1], **state_desc(rng, rng.choice(["tool_cas", "peer_cas", "raw", "tool_dsk"]), unique)})
+            sibling = paths[1]
         for p in paths:
-            if rng.chance(0.7):
+            if rng.chance(0.7) and p != locals().get("sibling"):
                 st = rng.choice(STATES[:8] + ["peer_cas_hibit"])
                 ops.append({"op": "setup", "path": p, **state_desc(rng, st, unique)})
         ops.append({"op": "setup", "path": "source.img", **state_desc(rng, rng.choice(["tool_cas", "peer_cas", "tool_dsk", "peer_dsk"]), unique, n_files=rng.randint(1, 2))})
